@@ -100,6 +100,9 @@ def run_case(case, ctx):
     prof['kex'] = ['curve25519-sha256', 'diffie-hellman-group14-sha256']
     prof['key'] = ['ssh-ed25519']
     prof['keys'] = {'ssh-ed25519': {}}
+    if gen.case_rng(case['pseed'], ID, 'ssh1-only').random() < 0.2 and case['mode'] != 'policy':
+        # a peer that speaks SSH-1 only is reported on through another code path: same labels expected
+        prof = {'banner': 'SSH-1.5-OpenSSH_3.0', 'ssh2': False, 'ssh1': {'cmask': 0x48, 'amask': 0x0c, 'hkey_bits': 1024, 'skey_bits': 768}}
     hosts = {}
     addrs = []
     if case['kind'] == 'name':
@@ -225,8 +228,15 @@ def run_case(case, ctx):
     # ---- labels
     lab_hostport = '%s:%d' % (host, port)
     if rec['connects'] and any(c[3] == 'ok' for c in rec['connects']):
+        # the named target accepted a connection and the peer is cooperative: a report has to come out, with its label
+        if rec['outcome'] != 'exit' or rec['status'] not in (0, 1, 2, 3) or 'Traceback (most recent call last)' in rec['stdout'] + rec['stderr']:
+            out.append(viol('C18 no report for a named target that accepts connections (status %s, %s)' % (rec['status'], ' '.join(case['fam']) or 'no family option'),
+                            '%s\nstderr tail: %s' % (ctx_txt, rec['stderr'][-400:])))
+            return {'violations': out, 'keys': keys}
         if case['mode'] == 'json':
             doc, err = report.parse_json(rec['stdout'])
+            if doc is None or (isinstance(doc, dict) and 'target' not in doc):
+                out.append(viol('C18 JSON report carries no target label', ctx_txt))
             if doc is not None:
                 if isinstance(doc, list):
                     cand = [x for x in doc if isinstance(x, dict) and not (other and str(x.get('target', '')).startswith(other['host']))]
@@ -245,6 +255,8 @@ def run_case(case, ctx):
             want = host if port == 22 else ('[%s]:%d' % (host, port) if ':' in host else '%s:%d' % (host, port))
             if same and want in hosts_shown:
                 m = None
+            if not hosts_shown:
+                out.append(viol('C18 policy report carries no target label', ctx_txt))
             if m and m.group(1) != want:
                 out.append(viol('C18 policy report label differs from the named target', 'label %r want %r\n%s' % (m.group(1), want, ctx_txt)))
         elif src == 'file' and not other:
@@ -252,6 +264,8 @@ def run_case(case, ctx):
             want = host if port == 22 else ('[%s]:%d' % (host, port) if ':' in host else '%s:%d' % (host, port))
             if same and want in re.findall(r'(?m)^\(gen\) target: (\S+)', report.strip_ansi(rec['stdout'])):
                 m = None
+            if m is None and not same:
+                out.append(viol('C18 multi-target report carries no target label', ctx_txt))
             if m and m.group(1) != want:
                 out.append(viol('C18 multi-target label differs from the named target', 'label %r want %r\n%s' % (m.group(1), want, ctx_txt)))
     if rec['resolver'] or rec['connects']:
